@@ -9,7 +9,7 @@
    finding nul_in_source). *)
 From Coq Require Import List NArith ZArith Bool Permutation.
 Import ListNotations.
-From Cffi Require Import C35.PyStr C35.Model C24.Utf8 C32.PyStr C32.Model C32.Spec C32.Gen C32.Proofs C32.Proofs2 C32.Proofs3.
+From Cffi Require Import C35.PyStr C35.Model C24.Utf8 C32.PyStr C32.Model C32.Spec C32.Gen C32.Proofs C32.Proofs2 C32.Proofs3 C32.Proofs4.
 Open Scope N_scope.
 
 (* the regenerated flatten computes the specified encoding, for every value and fuel *)
@@ -132,6 +132,93 @@ Proof.
   - right. split; auto. eapply name_injective_in_crcs; eauto.
 Qed.
 Print Assumptions C32_same_name_only_by_crc_collision.
+
+(* the name determines tag and engine as well: the part after the last '_' is engine key (one character, not '_':
+   C32_class_keys for the two engines of the code) + the two hexadecimal numbers, none of which contains '_' *)
+Theorem C32_name_injective_in_tag_engine : forall (crc : list N -> Z) tag tag' ck ck' key key' b b' n,
+  length ck = 1%nat -> length ck' = 1%nat -> no_char 95 ck -> no_char 95 ck' ->
+  utf8_encode key = Some b -> utf8_encode key' = Some b' ->
+  module_name crc tag ck key = Ok n -> module_name crc tag' ck' key' = Ok n ->
+  tag = tag' /\ ck = ck' /\ crc_pair crc b = crc_pair crc b'.
+Proof. exact name_injective_in_tag_engine. Qed.
+Print Assumptions C32_name_injective_in_tag_engine.
+
+(* the engine keys regenerated from vengine_cpy.py / vengine_gen.py (Gen.v class_keys) satisfy these hypotheses *)
+Theorem C32_class_keys : forall ck, In ck class_keys ->
+  length ck = 1%nat /\ no_char 95 ck /\ no_char 46 ck /\ no_char 47 ck.
+Proof. exact class_keys_ok. Qed.
+Print Assumptions C32_class_keys.
+
+(* the property's conclusion with tag and engine free on both sides *)
+Theorem C32_same_name_only_by_crc_collision_any_tag :
+  forall (crc : list N -> Z) fuel fuel' i j tag tag' ck ck' ki kj bi bj n,
+  In ck class_keys -> In ck' class_keys -> nulfree_inputs i -> nulfree_inputs j ->
+  key_of fuel i = Ok ki -> key_of fuel' j = Ok kj ->
+  utf8_encode ki = Some bi -> utf8_encode kj = Some bj ->
+  module_name crc tag ck ki = Ok n -> module_name crc tag' ck' kj = Ok n ->
+  tag = tag' /\ ck = ck' /\ (equiv_inputs i j \/ (bi <> bj /\ crc_pair crc bi = crc_pair crc bj)).
+Proof.
+  intros crc fuel fuel' i j tag tag' ck ck' ki kj bi bj n Ic Ic' Ni Nj Ki Kj Ei Ej Mi Mj.
+  destruct (class_keys_ok _ Ic) as [L [U _]]. destruct (class_keys_ok _ Ic') as [L' [U' _]].
+  destruct (name_injective_in_tag_engine crc _ _ _ _ _ _ _ _ _ L L' U U' Ei Ej Mi Mj) as [-> [-> P]].
+  split; auto. split; auto.
+  destruct (list_eq_dec N.eq_dec bi bj) as [->|Hne].
+  - left. eapply C32_key_bytes_injective; eauto.
+  - right. split; auto.
+Qed.
+Print Assumptions C32_same_name_only_by_crc_collision_any_tag.
+
+(* what the property observes, Verifier(...).get_module_name() — regenerated with the assembly of self.modulefilename
+   (Gen.v get_module_name, module_filename; os.path.join/basename = posixpath) — gives the file's <name> back when
+   <name> has no '.' and no '/', the suffix starts with '.', and (debug build) <name> does not end with "_d" *)
+Theorem C32_get_module_name : forall debug tmpdir name suffix r,
+  no_char 46 name -> no_char 47 name -> no_char 47 suffix -> suffix = 46 :: r ->
+  debug = false \/ py_endswith name [95;100] = false ->
+  get_module_name debug (module_filename tmpdir name suffix) = name.
+Proof. exact get_module_name_roundtrip. Qed.
+Print Assumptions C32_get_module_name.
+
+(* so for a tag without '.' and '/', get_module_name() IS the name chosen by __init__ (debug build or not: a chosen
+   name ends with 'x' and a hexadecimal digit, never with "_d"), and the theorems above are about what is observed *)
+Theorem C32_get_module_name_of_chosen : forall (crc : list N -> Z) debug tmpdir suffix r tag ck key n,
+  no_char 46 tag -> no_char 47 tag -> In ck class_keys -> no_char 47 suffix -> suffix = 46 :: r ->
+  module_name crc tag ck key = Ok n ->
+  get_module_name debug (module_filename tmpdir n suffix) = n.
+Proof.
+  intros crc debug tmpdir suffix r tag ck key n T6 T7 Ic S7 ES H.
+  destruct (class_keys_ok _ Ic) as [_ [_ [C6 C7]]].
+  apply (get_module_name_of_generated crc debug tmpdir suffix r tag ck key n); assumption.
+Qed.
+Print Assumptions C32_get_module_name_of_chosen.
+
+(* with a '.' in the tag the observed name is "_cffi_" + what precedes the first '.', for EVERY key: all inputs share it *)
+Theorem C32_dotted_tag_collapses : forall (crc : list N -> Z) tmpdir suffix t1 t2 ck key n,
+  no_char 46 t1 -> no_char 47 t1 -> no_char 47 t2 -> no_char 47 ck -> no_char 47 suffix ->
+  module_name crc (t1 ++ 46 :: t2) ck key = Ok n ->
+  get_module_name false (module_filename tmpdir n suffix) = [95;99;102;102;105;95] ++ t1.
+Proof. exact dotted_tag_collapses. Qed.
+Print Assumptions C32_dotted_tag_collapses.
+
+(* hence "equal observed names only through a CRC collision" is false of the model when tags may contain '.':
+   tag "a.b", engine 'x', two keys with different CRC pairs and different chosen names, one get_module_name().
+   Replayed on the real code by the check (finding dotted_tag). *)
+Theorem C32_dotted_tag_refuted :
+  exists (crc : list N -> Z) tag ck key key' b b' n n' tmpdir suffix,
+    In ck class_keys /\ utf8_encode key = Some b /\ utf8_encode key' = Some b' /\
+    module_name crc tag ck key = Ok n /\ module_name crc tag ck key' = Ok n' /\
+    n <> n' /\ crc_pair crc b <> crc_pair crc b' /\
+    get_module_name false (module_filename tmpdir n suffix) = get_module_name false (module_filename tmpdir n' suffix).
+Proof. exact dotted_tag_refuted. Qed.
+Print Assumptions C32_dotted_tag_refuted.
+
+(* non-vacuity: /tmp/x/_cffi_t_x1ax2b.cpython-312.so -> _cffi_t_x1ax2b ; tag "a.b" -> _cffi_a *)
+Example C32_example_get_module_name :
+  get_module_name false (module_filename [47;116;109;112;47;120] [95;99;102;102;105;95;116;95;120;49;97;120;50;98]
+                                         [46;99;112;121;116;104;111;110;45;51;49;50;46;115;111])
+  = [95;99;102;102;105;95;116;95;120;49;97;120;50;98] /\
+  get_module_name false (module_filename [47;116] [95;99;102;102;105;95;97;46;98;95;120;49;97;120;50;98] [46;115;111])
+  = [95;99;102;102;105;95;97].
+Proof. vm_compute. split; reflexivity. Qed.
 
 (* non-vacuity: {'libraries': ['m'], 'define_macros': [('A', '1')], 'x': True, 'n': -12}, keys sorted *)
 Example C32_example :
